@@ -8,7 +8,7 @@ class FilteredConfigParser(ObjectProxy):
   filters out entries for particular, unwanted species"""
 
 
-  def __init__(self, config_parser, exclude = [], include = []):
+  def __init__(self, config_parser, exclude = None, include = None):
     """Wrap existing ConfigParser so that it excludes entries
     for unwanted species.
 
@@ -24,8 +24,13 @@ class FilteredConfigParser(ObjectProxy):
     if exclude and include:
       raise ValueError("Both exclude and include arguments specified. Only one can be used at one time.")
 
-    if exclude:
+    if exclude or (exclude is not None and include is None):
+      # An empty exclude list removes nothing (it is not the same as an empty include list).
       self._self_species_list = exclude
+      self._self_exclude_flag = True
+    elif include is None:
+      # Neither argument given: nothing is filtered
+      self._self_species_list = []
       self._self_exclude_flag = True
     else:
       self._self_species_list = include
